@@ -26,3 +26,12 @@ func lemmaUInt128IntRoundTrip(v int) int                       { return UInt128F
 func lemmaIPv4RoundTrip(v IPv4) IPv4                           { return ToIPv4(v.ToIP()) }
 func lemmaIPv6RoundTrip(v IPv6) IPv6                           { return ToIPv6(v.ToIP()) }
 func lemmaIPv4FromAddr(ip netip.Addr) netip.Addr               { return ToIPv4(ip).ToIP() }
+
+// lemmaSettingRoundTrip: one setting survives Encode -> Decode with every flag combination.
+func lemmaSettingRoundTrip(x Setting) (y Setting, r *Reader, err error) {
+	b := new(Buffer)
+	x.Encode(b)
+	r = b.Reader()
+	err = y.Decode(r)
+	return
+}
